@@ -1,4 +1,5 @@
 import JxlModel.Proofs.Container
+import JxlModel.Proofs.AuxBox
 /-!
 # C10 — container framing
 
@@ -12,7 +13,10 @@ every container file of the `Spec` type.
 `AuxBoxData` payload flattened to one token per byte (`C10_normal_form_canonical`: equal flattenings
 ⇔ equal event lists after merging adjacent data events and dropping empty ones).
 
-Brotli is outside this layer: a `brob` box is delivered as inner type + raw compressed payload.
+Brotli is outside the parser layer: a `brob` box is delivered as inner type + raw compressed
+payload.  The second half of this file (`namespace Jxl.AuxBox`, theorems `C10_aux_*`) is about the
+layer above, `AuxBoxList` as driven by `JxlImage::feed_bytes / finalize / read`
+(`Model/AuxBox.lean`), where Brotli and the jbrd data enter as the parameter `Codec`.
 
 ## F1 (genuine defect of the unrepaired code, DESIGN §8)
 `parseHeaderOld` is the header parser as it was: with 8..15 bytes of a 64-bit header available it
@@ -273,3 +277,295 @@ example : (feed ⟨.waitingBoxHeader, .initial⟩ [0, 0, 0, 1, 0x61, 0x62, 0x63]
     consumed (serFile exFile) (feed init (serFile exFile)) = 83 := by decide +kernel
 
 end Jxl.Container
+
+/-! # The auxiliary box list behind `JxlImage::aux_boxes()` (`Model/AuxBox.lean`)
+
+`Sess.run c chunks` = `build_uninit()`, one `feed_bytes(leftover ++ chunk)` per chunk (stopping at
+the first error), `finalize()`.  `c : Codec` = Brotli decompression and the jbrd acceptance test,
+both arbitrary (every theorem holds for every `c`).  `deliverAll c St.init (aux bs)` = the
+specification: the file's auxiliary boxes in file order, each with its type and its payload
+(decompressed with `c.decompress` for `brob` boxes), `jbrd` boxes routed to the reconstruction
+data. -/
+namespace Jxl.AuxBox
+open Jxl.Container Jxl.Container.Spec
+
+/-! ## (f) complete files -/
+
+/-- For every well-formed container file and every chunking of its bytes, feeding everything and
+calling `finalize()` ends — for sized and to-end-of-file final boxes alike — with exactly the
+specified list: nothing open, `last_box` set, nothing left to re-offer; and if the specification
+fails (a `brob` payload that does not decompress, jbrd data that is not accepted) the session
+fails with that error (never a panic), whatever the chunking. -/
+theorem C10_aux_list_exact (c : Codec) (bs : List Box) (hwf : wf bs = true) (chunks : List Bytes)
+    (hc : chunks.flatten = serFile bs) :
+    match deliverAll c St.init (aux bs) with
+    | .ok a => ∃ s, Sess.run c chunks = .ok s ∧ s.a = { a with lastBox := true } ∧ s.pending = []
+    | .error e => Sess.run c chunks = .error (.aux e) ∧ e ≠ .panic := by
+  have h := run_file c bs hwf chunks hc
+  cases hd : deliverAll c St.init (aux bs) with
+  | ok a => rw [hd] at h; exact ⟨_, h, rfl, rfl⟩
+  | error e => rw [hd] at h; exact ⟨h, deliverAll_not_panic c _ _ e hd⟩
+
+/-- What the specified list is: the non-jbrd boxes in file order with type and decoded payload,
+every one of them decodable; nothing is left open. -/
+theorem C10_aux_delivered_boxes (c : Codec) (l : List AuxBox) (a : St)
+    (h : deliverAll c St.init l = .ok a) :
+    a.boxes = (l.filter (fun b => b.ty != tyJbrd)).map
+        (fun b => (b.ty, Finished.raw ((decodedPayload c b).getD []))) ∧
+      (∀ b ∈ l, b.ty ≠ tyJbrd → (decodedPayload c b).isSome = true) ∧
+      a.curTy = none ∧ a.cur = .init := by
+  obtain ⟨h1, h2, h3, h4⟩ := deliverAll_boxes c l St.init a h
+  exact ⟨by simpa [deliveredList, St.init] using h1, h4, h2, h3⟩
+
+/-- `first_of_type` after `finalize()`: the decoded payload of the first box of that type in the
+file, `NotFound` if the file has none — never `Decoding`. -/
+theorem C10_aux_first_of_type_exact (c : Codec) (bs : List Box) (hwf : wf bs = true)
+    (chunks : List Bytes) (hc : chunks.flatten = serFile bs) (a : St)
+    (hd : deliverAll c St.init (aux bs) = .ok a) (ty : Bytes) (hty : ty ≠ tyJbrd) :
+    ∃ s, Sess.run c chunks = .ok s ∧
+      firstOfType s.a ty =
+        match (aux bs).find? (fun b => b.ty == ty) with
+        | some b => .data ((decodedPayload c b).getD [])
+        | none => .notFound := by
+  have h := C10_aux_list_exact c bs hwf chunks hc
+  rw [hd] at h
+  obtain ⟨s, h1, h2, _⟩ := h
+  refine ⟨s, h1, ?_⟩
+  obtain ⟨b1, b2, _, _⟩ := deliverAll_boxes c (aux bs) St.init a hd
+  have hfind := find_deliveredList c ty hty (aux bs)
+  simp only [firstOfType, h2, b1, St.init, List.nil_append, hfind, b2]
+  cases (aux bs).find? (fun b => b.ty == ty) with
+  | none => simp
+  | some b => simp [Finished.data]
+
+/-- `RawExif::new` accepts exactly the boxes with a 4-byte offset field and an offset inside the
+payload, and returns that offset and the bytes after the field. -/
+theorem C10_aux_exif_validation (box : Bytes) (off : Nat) (p : Bytes) :
+    rawExif box = some (off, p) ↔
+      4 ≤ box.length ∧ off = beNat (box.take 4) ∧ p = box.drop 4 ∧ off < p.length := by
+  unfold rawExif
+  constructor
+  · intro h
+    split at h
+    · cases h
+    · split at h
+      · cases h
+      · cases h; exact ⟨by omega, rfl, rfl, by omega⟩
+  · rintro ⟨h1, h2, h3, h4⟩
+    subst h2 h3
+    rw [if_neg (by omega), if_neg (by omega)]
+
+/-- `first_exif()` after `finalize()`: the first `Exif` box of the file (plain or `brob`), decoded
+and validated; `NotFound` without one. -/
+theorem C10_aux_first_exif_exact (c : Codec) (bs : List Box) (hwf : wf bs = true)
+    (chunks : List Bytes) (hc : chunks.flatten = serFile bs) (a : St)
+    (hd : deliverAll c St.init (aux bs) = .ok a) :
+    ∃ s, Sess.run c chunks = .ok s ∧
+      firstExif s.a =
+        match (aux bs).find? (fun b => b.ty == tyExif) with
+        | some b => (rawExif ((decodedPayload c b).getD [])).map .data
+        | none => some .notFound := by
+  obtain ⟨s, h1, h2⟩ := C10_aux_first_of_type_exact c bs hwf chunks hc a hd tyExif (by decide)
+  refine ⟨s, h1, ?_⟩
+  unfold firstExif
+  rw [h2]
+  cases (aux bs).find? (fun b => b.ty == tyExif) <;> rfl
+
+/-- `first_xml()` after `finalize()`. -/
+theorem C10_aux_first_xml_exact (c : Codec) (bs : List Box) (hwf : wf bs = true)
+    (chunks : List Bytes) (hc : chunks.flatten = serFile bs) (a : St)
+    (hd : deliverAll c St.init (aux bs) = .ok a) :
+    ∃ s, Sess.run c chunks = .ok s ∧
+      firstXml s.a =
+        match (aux bs).find? (fun b => b.ty == tyXml) with
+        | some b => .data ((decodedPayload c b).getD [])
+        | none => .notFound :=
+  C10_aux_first_of_type_exact c bs hwf chunks hc a hd tyXml (by decide)
+
+/-! ## (g) every byte string: the chunking does not matter, `read()` is a feed -/
+
+/-- For every byte string (well-formed or not) and every chunking, the session — list, parser
+state, bytes to re-offer, or the error — is that of one `feed_bytes` call on the whole buffer. -/
+theorem C10_aux_chunking_invariant (c : Codec) (chunks : List Bytes) :
+    Sess.run c chunks = Sess.run c [chunks.flatten] := by
+  have key : Sess.init.pushAll c chunks = Sess.init.pushAll c [chunks.flatten] := by
+    cases chunks with
+    | nil => simp [Sess.pushAll, Sess.push, Sess.init, feed_nil, runEvents]
+    | cons c0 cs =>
+      rw [pushAll_eq, pushAll_eq]
+      have h1 := feedChunks_same cs Sess.init.p Sess.init.pending c0
+      have h2 := feedChunks_same [] Sess.init.p Sess.init.pending (c0 :: cs).flatten
+      simp only [List.flatten_cons, List.flatten_nil, List.append_nil] at h1 h2 ⊢
+      exact sessOf_same c _ _ _ _ h1 h2 (feedChunks_noEmpty _ _ _) (feedChunks_noEmpty _ _ _)
+  simp only [Sess.run, key]
+
+/-- `JxlImage::builder().read(file)` (4096-byte refill loop, then `finalize()`) gives, for every
+byte string, the result of feeding the whole file in one call and finalising. -/
+theorem C10_aux_read_eq_whole (c : Codec) (file : Bytes) : read c file = Sess.run c [file] := by
+  obtain ⟨chunks, e1, e2⟩ := read_eq_run c file
+  rw [e2, C10_aux_chunking_invariant, e1]
+
+/-- Hence `read()` of a well-formed file ends with exactly the specified list. -/
+theorem C10_aux_read_exact (c : Codec) (bs : List Box) (hwf : wf bs = true) :
+    match deliverAll c St.init (aux bs) with
+    | .ok a => ∃ s, read c (serFile bs) = .ok s ∧ s.a = { a with lastBox := true } ∧ s.pending = []
+    | .error e => read c (serFile bs) = .error (.aux e) ∧ e ≠ .panic := by
+  rw [C10_aux_read_eq_whole]
+  exact C10_aux_list_exact c bs hwf [serFile bs] (by simp)
+
+/-! ## (h) before `finalize()` -/
+
+/-- An answer `Data` never changes: whatever is fed afterwards (any bytes, any chunks) and through
+`finalize()`, `first_of_type` keeps returning the same bytes. -/
+theorem C10_aux_data_stable (c : Codec) (m : Sess) (post : List Bytes) (ty d : Bytes)
+    (h : firstOfType m.a ty = .data d) (s : Sess) (hs : Sess.pushAll c m post = .ok s) :
+    firstOfType s.a ty = .data d ∧ ∀ f, s.finalize c = .ok f → firstOfType f.a ty = .data d := by
+  obtain ⟨p, hp, hpd⟩ := firstOfType_data_found m.a ty d h
+  have h1 := pushAll_boxes_prefix c post m s hs
+  refine ⟨by rw [firstOfType_of_prefix m.a s.a ty h1 p hp, hpd], ?_⟩
+  intro f hf
+  have h2 := finalize_sess_boxes_prefix c s f hf
+  rw [firstOfType_of_prefix m.a f.a ty (List.IsPrefix.trans h1 h2) p hp, hpd]
+
+/-- Well-formed file, any chunking, any point between two chunks: a definite answer given early
+(`Data d` or `NotFound`) is the answer after `finalize()` — which `C10_aux_first_of_type_exact`
+shows to be the right one.  So before the end a box that is still arriving, or may still come, is
+reported `Decoding`: never wrong data, never a premature `NotFound`. -/
+theorem C10_aux_early_answer_final (c : Codec) (bs : List Box) (hwf : wf bs = true)
+    (pre post : List Bytes) (hc : (pre ++ post).flatten = serFile bs) (m f : Sess)
+    (hm : Sess.init.pushAll c pre = .ok m) (hf : Sess.run c (pre ++ post) = .ok f) (ty : Bytes) :
+    (∀ d, firstOfType m.a ty = .data d → firstOfType f.a ty = .data d) ∧
+      (firstOfType m.a ty = .notFound → firstOfType f.a ty = .notFound) := by
+  simp only [Sess.run, pushAll_append, hm] at hf
+  cases hs2 : Sess.pushAll c m post with
+  | error e => rw [hs2] at hf; cases hf
+  | ok s2 =>
+    rw [hs2] at hf
+    simp only at hf
+    refine ⟨fun d hd => (C10_aux_data_stable c m post ty d hd s2 hs2).2 f hf, ?_⟩
+    intro hnf
+    -- tokens seen so far and tokens to come
+    have e1 := pushAll_eq c pre Sess.init
+    rw [hm] at e1
+    obtain ⟨r1e, r1ev, r1p, r1r⟩ := sessOf_ok c _ _ m e1.symm
+    have e2 := pushAll_eq c post m
+    rw [hs2] at e2
+    obtain ⟨_, r2ev, _, _⟩ := sessOf_ok c _ _ s2 e2.symm
+    have happ := feedChunks_append pre post Sess.init.p Sess.init.pending
+    rw [r1e] at happ
+    simp only at happ
+    have hex := (C10_wellformed_events_exact bs hwf (pre ++ post) hc).2.2
+    simp only [Sess.init] at happ r1ev r1p r1r
+    rw [happ] at hex
+    simp only [toks_append] at hex
+    rw [runEvents_eq_runToks c _ _ (feedChunks_noEmpty _ _ _)] at r1ev
+    rw [runEvents_eq_runToks c _ _ (feedChunks_noEmpty _ _ _), r1p, r1r] at r2ev
+    have hshape : shapeOk bs = true := by
+      simp only [wf, Bool.and_eq_true] at hwf; exact hwf.1
+    have htail : lastTail (Tok.kind .container :: expected bs) := lastTail_expected bs hshape
+    rw [← hex] at htail
+    have hsafe0 : Safe St.init
+        (toks (feedChunks Container.init [] pre).events ++
+          toks (feedChunks (feedChunks Container.init [] pre).state
+            (feedChunks Container.init [] pre).rest post).events) := by
+      intro hl; cases hl
+    obtain ⟨hsafe, _⟩ := safe_run c _ St.init m.a _ hsafe0 htail r1ev
+    apply notFound_final c m.a f.a _ ty hsafe hnf
+    rw [r2ev]
+    simp only [andThen_ok]
+    unfold Sess.finalize at hf
+    cases he : eof c s2.a with
+    | error x => rw [he] at hf; cases hf
+    | ok a' => rw [he] at hf; cases hf; rfl
+
+/-- In particular: as long as the first box of a type that the file does contain is not finished,
+`first_of_type` says `Decoding`. -/
+theorem C10_aux_arriving_box_decoding (c : Codec) (bs : List Box) (hwf : wf bs = true)
+    (pre post : List Bytes) (hc : (pre ++ post).flatten = serFile bs) (m : Sess) (a : St)
+    (hm : Sess.init.pushAll c pre = .ok m) (hd : deliverAll c St.init (aux bs) = .ok a)
+    (ty : Bytes) (hty : ty ≠ tyJbrd) (b : AuxBox)
+    (hb : (aux bs).find? (fun b => b.ty == ty) = some b)
+    (hnone : m.a.boxes.find? (fun p => p.1 == ty) = none) :
+    firstOfType m.a ty = .decoding := by
+  obtain ⟨f, hf, hans⟩ := C10_aux_first_of_type_exact c bs hwf (pre ++ post) hc a hd ty hty
+  rw [hb] at hans
+  have := C10_aux_early_answer_final c bs hwf pre post hc m f hm hf ty
+  cases hq : firstOfType m.a ty with
+  | decoding => rfl
+  | data d =>
+    obtain ⟨p, hp, _⟩ := firstOfType_data_found m.a ty d hq
+    rw [hnone] at hp; cases hp
+  | notFound =>
+    have := this.2 hq
+    rw [hans] at this; cases this
+
+/-! ## (i) no panic -/
+
+/-- For every byte string, every chunking and every codec the `panic!()` in
+`AuxBoxReader::ensure_raw` / `ensure_brotli` (a box starts while the reader still holds data of
+another kind) is never reached: the parser announces a box only when the previous one has been
+finalised, and a `jbrd` box never touches the reader.  (The parser's own panic sites:
+`C10_no_panic`.) -/
+theorem C10_aux_no_panic (c : Codec) (chunks : List Bytes) :
+    Sess.init.pushAll c chunks ≠ .error (.aux .panic) ∧ Sess.run c chunks ≠ .error (.aux .panic) := by
+  refine ⟨?_, run_no_panic c chunks⟩
+  have h := pushAll_sync c chunks Sess.init rfl
+  cases hp : Sess.init.pushAll c chunks with
+  | error e => rw [hp] at h; intro hc; cases hc; exact h rfl
+  | ok s => simp
+
+/-! ## (j) the instance of `Codec.decompress` used by the correspondence run -/
+
+/-- `storedBrotli` (the stored-only Brotli decoder that instantiates `Codec.decompress` in the
+driver) gives back the concatenated data for every stream the campaign's generator can write: any
+number of uncompressed meta-blocks of 1..65536 bytes each (none = the empty stream `06`). -/
+theorem C10_aux_stored_brotli_roundtrip (parts : List Bytes)
+    (hp : ∀ p ∈ parts, 1 ≤ p.length ∧ p.length ≤ 65536) :
+    storedBrotli (storedEncode parts) = some parts.flatten :=
+  stored_roundtrip parts hp
+
+/-! ## Non-vacuity -/
+
+/-- a decompressor for the examples: the one-byte stream `[n]` stands for a zero offset field
+followed by `n` bytes `07`; everything else is invalid -/
+def exCodec : Codec :=
+  ⟨fun z => match z with | [n] => some ([0, 0, 0, 0] ++ List.replicate n.toNat 7) | _ => none, fun _ => false⟩
+
+/-- codestream, a `brob` Exif box, an `xml ` box running to the end of the file -/
+def exAuxFile : List Box :=
+  [.jxlc [0xff, 0x0a] .short, .brob tyExif [2] .long, .aux tyXml [0x3c, 0x3e] .toEof]
+
+/-- the hypotheses of (f) hold and the specification is what one expects -/
+example : wf exAuxFile = true ∧
+    (deliverAll exCodec St.init (aux exAuxFile)).toOption.map (·.boxes) =
+      some [(tyExif, .raw [0, 0, 0, 0, 7, 7]), (tyXml, .raw [0x3c, 0x3e])] := by decide
+
+/-- the model run, 53 bytes, split inside the 64-bit `brob` header and inside the last box: before
+`finalize()` the Exif data is there and the xml box (still open) is `Decoding`; afterwards both are
+data — the state that a regression returning early from `eof` would never reach. -/
+example :
+    let f := serFile exAuxFile
+    (match Sess.init.pushAll exCodec [f.take 30, (f.drop 30).take 22, f.drop 52] with
+      | .ok m => (firstExif m.a, firstXml m.a)
+      | .error _ => (none, .notFound)) = (some (.data (0, [7, 7])), .decoding) ∧
+    (match Sess.run exCodec [f.take 30, (f.drop 30).take 22, f.drop 52] with
+      | .ok s => (firstExif s.a, firstXml s.a)
+      | .error _ => (none, .notFound)) = (some (.data (0, [7, 7])), .data [0x3c, 0x3e]) := by
+  decide +kernel
+
+/-- a `brob` payload that does not decompress: the error case of `C10_aux_list_exact` -/
+example : (match deliverAll exCodec St.init (aux [.brob tyExif [1, 2] .short]) with
+    | .error e => some e | .ok _ => none) = some .brotli := by decide
+
+/-- `RawExif::new`: offset 2 into a 3-byte payload is accepted, offset 3 is not, 3 bytes are not -/
+example : rawExif [0, 0, 0, 2, 9, 9, 9] = some (2, [9, 9, 9]) ∧ rawExif [0, 0, 0, 3, 9, 9, 9] = none ∧
+    rawExif [0, 0, 0] = none := by decide
+
+/-- the stored-Brotli instance used by the correspondence run decodes what the generator writes:
+two meta-blocks `ab`, `c`; the empty stream; and rejects a truncated stream -/
+example : storedBrotli (storedEncode [[0x61, 0x62], [0x63]]) = some [0x61, 0x62, 0x63] ∧
+    storedEncode [[0x61, 0x62], [0x63]] = [0x10, 0x00, 0x10, 0x61, 0x62, 0x00, 0x00, 0x08, 0x63, 0x03] ∧
+    storedBrotli (storedEncode []) = some [] ∧
+    storedBrotli ((storedEncode [[0x61, 0x62], [0x63]]).take 9) = none := by decide
+
+end Jxl.AuxBox
